@@ -28,6 +28,9 @@ type RCmd struct {
 	// Spaced: the reference is written with blanks inside the braces ("{{ .NAME }}"), which the
 	// template syntax spok documents its references in allows
 	Spaced bool `json:"spaced,omitempty"`
+	// Tail: the command ends in ": {{.PADR}}", a reference at the very edge of the command whose value ends in
+	// blanks, so that the interpolated text ends in blanks too (needs ReportCase.EdgePad)
+	Tail bool `json:"tail,omitempty"`
 }
 
 // RTask is a task of a C20 program.
@@ -75,6 +78,8 @@ type ReportCase struct {
 	// JoinPair: two more variables, join("my docs", "notes") and join("my", "docs notes") — different
 	// argument lists that print alike; --vars lists each with its own value
 	JoinPair bool `json:"join_pair,omitempty"`
+	// EdgePad: one more variable, PADR := "abc  ", referenced at the end of the commands marked Tail
+	EdgePad bool `json:"edge_pad,omitempty"`
 }
 
 var reportNames = []string{"default", "build", "lint", "test", "zeta", "Apple", "coverage", "integrationtests"} // also lengths 8 and 16: a full tab stop
@@ -96,6 +101,14 @@ func genReport(t *rapid.T) ReportCase {
 	c.JoinPair = rapid.IntRange(0, 3).Draw(t, "join_pair") == 0
 	if c.Invoke == "" && rapid.IntRange(0, 2).Draw(t, "nested") == 0 {
 		c.Nested = rapid.SampledFrom([]string{"plain", "decoy"}).Draw(t, "nested_kind")
+	}
+	if rapid.IntRange(0, 2).Draw(t, "edge_pad") == 0 {
+		c.EdgePad = true
+		for ti := range c.Tasks {
+			for ci := range c.Tasks[ti].Cmds {
+				c.Tasks[ti].Cmds[ci].Tail = rapid.Bool().Draw(t, "tail_reference")
+			}
+		}
 	}
 	return c
 }
@@ -149,6 +162,9 @@ func genReportBody(t *rapid.T) ReportCase {
 	return c
 }
 
+// edgePadValue ends in blanks: a command that ends in a reference to it has an interpolated text that ends in blanks
+const edgePadValue = "abc  "
+
 func rmarker(ti, ci int) string { return fmt.Sprintf("r%dc%d", ti, ci) }
 
 func (c ReportCase) cmdText(ti, ci int, interpolated bool, vars map[string]string) string {
@@ -165,13 +181,23 @@ func (c ReportCase) cmdText(ti, ci int, interpolated bool, vars map[string]strin
 			}
 		}
 	}
-	return fmt.Sprintf("echo %s >> $LOG && %sprintf '%s' && printf '%s' >&2", rmarker(ti, ci), pre, rc.Out.Arg, rc.Err.Arg)
+	tail := ""
+	if rc.Tail && c.EdgePad {
+		tail = " && : {{.PADR}}"
+		if interpolated {
+			tail = " && : " + edgePadValue
+		}
+	}
+	return fmt.Sprintf("echo %s >> $LOG && %sprintf '%s' && printf '%s' >&2%s", rmarker(ti, ci), pre, rc.Out.Arg, rc.Err.Arg, tail)
 }
 
 func (c ReportCase) source() string {
 	var b strings.Builder
 	for _, v := range c.Vars {
 		fmt.Fprintf(&b, "%s := \"%s\"\n", v[0], v[1])
+	}
+	if c.EdgePad {
+		b.WriteString("PADR := \"" + edgePadValue + "\"\n")
 	}
 	if c.JoinPair {
 		b.WriteString("OUTDIR := join(\"my docs\", \"notes\")\nSRCDIR := join(\"my\", \"docs notes\")\n")
@@ -509,6 +535,9 @@ func execReport(s *ev.Shard, b *sandbox.Box, c ReportCase) *rp.Fail {
 			if c.JoinPair {
 				eff := b.EffectiveCwd(cwd)
 				wantVars = append(wantVars, [2]string{"OUTDIR", filepath.Join(eff, "my docs", "notes")}, [2]string{"SRCDIR", filepath.Join(eff, "my", "docs notes")})
+			}
+			if c.EdgePad {
+				wantVars = append(wantVars, [2]string{"PADR", strings.TrimSpace(edgePadValue)})
 			}
 			if len(got) != len(wantVars) {
 				return &rp.Fail{Sig: "vars-rows", Size: size, Msg: fmt.Sprintf("%s: %d variables defined, --vars lists %d:\n%s", desc, len(wantVars), len(got), sandbox.Strip(r.Stdout))}
